@@ -156,7 +156,7 @@ def _parse_genes(feats):
         recs = list(p.parse())
     coll = recs[0].annotation.to_annotation_collection()
     genes = [_norm_gene(g.to_dict()) for g in coll.genes]
-    return sorted(genes, key=lambda g: json.dumps(g, sort_keys=True))
+    return sorted(genes, key=lambda g: (str(g.get("locus_tag")), json.dumps(g, sort_keys=True)))
 
 
 def _gbperm(t):
